@@ -44,6 +44,8 @@ pub struct Ctx {
     pub sample_mod: Option<u64>,
     /// raw command line (monitor-specific flags)
     pub flags: Vec<String>,
+    /// only these construction routes (exact names)
+    pub routes: Option<Vec<String>>,
 }
 impl Ctx {
     /// interpreter / valgrind slices (tiny budgets): exhaustive sub-sweeps are sampled instead
@@ -73,6 +75,11 @@ impl Ctx {
         }
         if let Some(p) = &self.prop {
             if e.prop != p {
+                return false;
+            }
+        }
+        if let Some(r) = &self.routes {
+            if !r.iter().any(|x| x == e.route) {
                 return false;
             }
         }
